@@ -127,22 +127,26 @@ def rule_f2(chk: Check, F, thorough: bool):
 
 
 def rule_f3(chk: Check, ix: Index):
+    from ..fprogs import delimiter_paths
     f = ix.get("handle_fstring_progs")
-    lb = rb = None
-    for n in ast.walk(f.node):
-        if isinstance(n, ast.If) and norm_stmt(n.test) == "endmatch.lastgroup == 'LBrace'":
-            lb, rb = n.body, n.orelse
-    if lb is None:
-        raise AnalysisError("brace emission branches of handle_fstring_progs not found")
-    lbs, rbs = [norm_stmt(s) for s in lb], [norm_stmt(s) for s in rb]
+    dp = delimiter_paths(ix)
+
+    def mode_effects(p):
+        return [x[1] for x in p if x[0] == "do" and x[1].startswith(("state.parenlev", "state.add_prog(", "state.pop_mode(", "state.end_progs"))]
+
+    def emits(p, *needles):
+        return [i for i, x in enumerate(p) if x[0] == "do" and "yield" in x[1] and all(n in x[1] for n in needles)]
     chk.count("F3-push-pop")
-    ok = any(s == "state.parenlev += 1" for s in lbs) and any(s.startswith("state.add_prog(end, end, mode=ModeInBraces(state.parenlev))") for s in lbs) \
-        and lbs.index("state.parenlev += 1") < [i for i, s in enumerate(lbs) if s.startswith("state.add_prog(")][0]
+    ok = all(mode_effects(p) == ["state.parenlev += 1", "state.add_prog(end, end, mode=ModeInBraces(state.parenlev))"] for p in dp["LBrace"])
     chk.require(ok, "F3-push-pop", "handle_fstring_progs:{", f.where,
                 "emitting `{` must raise the bracket depth and then push the in-braces mode recorded at that depth")
     chk.count("F3-push-pop")
-    pops = [s for s in rbs if s.startswith("state.pop_mode(")]
-    ok = any(s == "state.parenlev -= 1" for s in rbs) and len(pops) == 2 and pops[0] == "state.pop_mode()" and pops[1] == "state.pop_mode((state.lnum, end))"
+    ok = True
+    for p in dp["RBrace"]:
+        me = mode_effects(p)
+        pops = [s for s in me if s.startswith("state.pop_mode(")]
+        ok = ok and sorted(me) == sorted(["state.parenlev -= 1", "state.pop_mode()", "state.pop_mode((state.lnum, end))"]) \
+            and pops == ["state.pop_mode()", "state.pop_mode((state.lnum, end))"]
     chk.require(ok, "F3-push-pop", "handle_fstring_progs:}", f.where,
                 "emitting the `}` that ends a format spec must lower the bracket depth and pop exactly two modes: the spec, then the braces "
                 "(restarting the literal part right after the brace)")
@@ -171,9 +175,7 @@ def rule_f3(chk: Check, ix: Index):
                 "a `:` directly inside the braces (at the recorded depth) must push the format-spec mode starting after the colon")
     # end of the f-string pops the middle mode
     chk.count("F3-push-pop")
-    ok = any(isinstance(n, ast.If) and norm_stmt(n.test) == "endmatch.lastgroup == 'End'" and
-             norm_stmt(n.body[-1]) == "state.pop_mode()" and any("Token.FSTRING_END" in norm_stmt(s) for s in n.body)
-             for n in ast.walk(f.node))
+    ok = all(mode_effects(p) == ["state.pop_mode()"] and emits(p, "Token.FSTRING_END") for p in dp["End"])
     chk.require(ok, "F3-push-pop", "handle_fstring_progs:end", f.where,
                 "the closing quote must emit FSTRING_END and pop the literal-part mode")
 
